@@ -242,7 +242,7 @@ class P:
                 pend = pend + self.attrs()
                 continue
             if k == "id" and v in DIRS:
-                for n in self._port_decl(decls):
+                for n in self._port_decl(decls, dict_list(pend)):
                     order.append(("port", n))
                 pend = []
             elif k == "id" and v in NETS:
@@ -329,18 +329,18 @@ class P:
                                    "alias": names, "vtype": None, "alias_braces": isinstance(e, dict)})
                 port_nets.update(names)
             else:
-                d, vt, r = h.get("dir"), None, h.get("rng")
+                d, vt, r, pat = h.get("dir"), None, h.get("rng"), None
                 if d is None:
                     if h["name"] not in decls:
                         raise Unsupported("port %s has no declaration" % h["name"])
-                    d, vt, r = decls[h["name"]]
+                    d, vt, r, pat = decls[h["name"]]
                     m["style"] = "header"
                 if r is not None and (r[0] < r[1]):
                     m.setdefault("asc", []).append(h["name"])
                 lsb = min(r) if r else 0
                 w = (abs(r[0] - r[1]) + 1) if r else 1
                 m["ports"].append({"name": h["name"], "dir": d, "w": w, "ranged": r is not None, "alias": None,
-                                   "vtype": vt, "lsb": lsb})
+                                   "vtype": vt, "lsb": lsb, **({"attrs": pat} if pat is not None and not prim else {})})
                 port_nets.add(h["name"])
         for n in decls:
             if n not in port_nets:
@@ -380,7 +380,7 @@ class P:
         m["body"] = body
         return m
 
-    def _port_decl(self, decls):
+    def _port_decl(self, decls, attrs=()):
         d = self.next()[1]
         vt = None
         if self.peek()[0] == "id" and self.peek()[1] in ("wire", "reg"):
@@ -389,7 +389,7 @@ class P:
         names = []
         while True:
             n = self.name()
-            decls[n] = (d, vt, r)
+            decls[n] = (d, vt, r, list(attrs))
             names.append(n)
             if self.accept(";"):
                 break
